@@ -160,7 +160,11 @@ class _DocProxy:
         return f"_DocProxy({repr(self.doc)})"
 
     def __getitem__(self, key):
-        return self.doc[key]
+        value = self.doc[key]
+        if isinstance(value, Mapping):
+            # Nested mappings must be modified through a proxy as well.
+            return type(self)(value, dry_run=self.dry_run)
+        return value
 
     def __setitem__(self, key, value):
         logger.more(f"Set '{key}'='{value}'.")
